@@ -1,0 +1,6 @@
+//go:build !verif
+
+package client
+
+// verifPoint is a no-op unless the library is built with the "verif" tag (verification hooks, see verif_hooks.go).
+func verifPoint(string) {}
